@@ -58,6 +58,9 @@ type Term struct {
 	triLt, triGt *Term
 	// Int shadow: an Int-sorted term equal to the unsigned (ivU) reading of this bit-vector.
 	ivU *Term
+	// ... and to the signed (ivS) reading
+	ivS *Term
+	ivSMin bool // the signed value is known to be >= 0 (so subtracting a small constant cannot wrap)
 }
 
 func (t *Term) String() string { return t.s }
@@ -285,7 +288,22 @@ func (tb *TB) Ite(c, a, b *Term) *Term {
 			return tb.Not(c)
 		}
 	}
-	return tb.mk(a.S, "ite", c, a, b)
+	r := tb.mk(a.S, "ite", c, a, b)
+	if a.S.K == KBV {
+		// integer shadows survive a merge when both sides have one (constants have both readings)
+		if a.ivS != nil || b.ivS != nil {
+			if x, y := shadowS(a), shadowS(b); x != nil && y != nil {
+				r.ivS = tb.Ite(c, x, y)
+				r.ivSMin = (a.ivSMin || (a.c && sext64(a.u, a.S.W) >= 0)) && (b.ivSMin || (b.c && sext64(b.u, b.S.W) >= 0))
+			}
+		}
+		if a.ivU != nil || b.ivU != nil {
+			if x, y := shadowU(a), shadowU(b); x != nil && y != nil {
+				r.ivU = tb.Ite(c, x, y)
+			}
+		}
+	}
+	return r
 }
 
 func (tb *TB) Eq(a, b *Term) *Term {
@@ -310,6 +328,11 @@ func (tb *TB) Eq(a, b *Term) *Term {
 	}
 	if a.S.K == KBV && (a.ivU != nil || b.ivU != nil) {
 		if x, y := shadowU(a), shadowU(b); x != nil && y != nil {
+			return tb.mk(SBool, "=", x, y)
+		}
+	}
+	if a.S.K == KBV && (a.ivS != nil || b.ivS != nil) {
+		if x, y := shadowS(a), shadowS(b); x != nil && y != nil {
 			return tb.mk(SBool, "=", x, y)
 		}
 	}
@@ -340,6 +363,13 @@ func (tb *TB) BVAdd(a, b *Term) *Term {
 func (tb *TB) BVSub(a, b *Term) *Term {
 	if b.c && b.u == 0 {
 		return a
+	}
+	if a.ivS != nil && b.c && a.S.W == 64 && sext64(b.u, 64) > 0 && sext64(b.u, 64) < 1<<32 && a.ivSMin {
+		// x - small const with x known > MinInt64+2^32: no wrap
+		r := tb.bvBin("bvsub", a, b, func(x, y uint64) uint64 { return x - y })
+		c := *r
+		c.ivS = tb.ISub(a.ivS, IntConst64(sext64(b.u, 64)))
+		return &c
 	}
 	return tb.bvBin("bvsub", a, b, func(x, y uint64) uint64 { return x - y })
 }
@@ -455,9 +485,24 @@ func shadowU(t *Term) *Term {
 	return nil
 }
 
+func shadowS(t *Term) *Term {
+	if t.ivS != nil {
+		return t.ivS
+	}
+	if t.c {
+		return IntConst64(sext64(t.u, t.S.W))
+	}
+	return nil
+}
+
 func (tb *TB) BVLt(a, b *Term, signed bool) *Term {
 	if a.S != b.S {
 		panic(fmt.Sprintf("bvlt sort mismatch %v %v", a.S, b.S))
+	}
+	if signed && (a.ivS != nil || b.ivS != nil) {
+		if x, y := shadowS(a), shadowS(b); x != nil && y != nil {
+			return tb.ILt(x, y)
+		}
 	}
 	if !signed && (a.ivU != nil || b.ivU != nil) {
 		if x, y := shadowU(a), shadowU(b); x != nil && y != nil {
@@ -476,6 +521,11 @@ func (tb *TB) BVLt(a, b *Term, signed bool) *Term {
 	return tb.mk(SBool, "bvult", a, b)
 }
 func (tb *TB) BVLe(a, b *Term, signed bool) *Term {
+	if signed && (a.ivS != nil || b.ivS != nil) {
+		if x, y := shadowS(a), shadowS(b); x != nil && y != nil {
+			return tb.ILe(x, y)
+		}
+	}
 	if !signed && (a.ivU != nil || b.ivU != nil) {
 		if x, y := shadowU(a), shadowU(b); x != nil && y != nil {
 			return tb.ILe(x, y)
@@ -643,6 +693,9 @@ func (tb *TB) BV2Int(a *Term, signed bool) *Term {
 	}
 	if a.ivU != nil && !signed {
 		return a.ivU
+	}
+	if a.ivS != nil && signed {
+		return a.ivS
 	}
 	n := tb.mk(SInt, "bv2nat", a)
 	if !signed {
